@@ -195,8 +195,8 @@ func SafeDiv[T Integer](x T, y T) (T, error) {
 
 func SafeLeftShift[T Integer](val T, shift uint8) (T, error) {
 	result := val << shift
-	// if the result is smaller than the original value, we have an overflow
-	if result < val {
+	// if shifting back does not restore the original value, bits were shifted out (or into the sign bit): overflow
+	if result>>shift != val {
 		return 0, ierrors.WithMessagef(ErrIntegerOverflow, "%d << %d", val, shift)
 	}
 
